@@ -1,11 +1,12 @@
 import NasVerif.Driver.CodecOps
+import NasVerif.Driver.SpecOps
 import NasVerif.Driver.CounterOps
 import NasVerif.Driver.AccOps
 open NasVerif NasVerif.Driver
 
 def step (line : String) : String :=
   let toks := (line.trimAscii.toString.splitOn " ").filter (· ≠ "")
-  match (codecOp toks <|> counterOp toks <|> accOp toks) with
+  match (codecOp toks <|> specOp toks <|> counterOp toks <|> accOp toks) with
   | some r => r
   | none => "bad-op"
 
